@@ -37,7 +37,45 @@ def build(d, symbolic=False):
       cls = classes.CLASSES.get(d['$o'])
       if cls is None or not isinstance(d.get('a', {}), dict):
         raise core.InvalidCase(d)
-      return cls(**{k: build(x, symbolic) for k, x in d.get('a', {}).items()})
+      kw = {k: build(x, symbolic) for k, x in d.get('a', {}).items()}
+      if cls is classes.Req and 'r' not in kw:
+        return cls.partial(**kw)
+      if cls in (classes.Typed, classes.Req):
+        try:
+          if _has_partial(d.get('a', {})):
+            # a field value that is itself partial: build an explicitly partial object
+            return cls.partial(**kw)
+          return cls(**kw)
+        except (TypeError, ValueError, KeyError) as e:
+          raise core.InvalidCase(d) from e
+      return cls(**kw)
+    if '$ref' in d:
+      return pg.Ref(build(d['$ref'], not d.get('plain')))
+    if '$hyper' in d:
+      kind, arg = d['$hyper'], d.get('c', [])
+      if not isinstance(arg, list):
+        raise core.InvalidCase(d)
+      cands = [build(x, symbolic) for x in arg] or [0, 1]
+      if kind == 'oneof':
+        return pg.oneof(cands)
+      if kind == 'manyof':
+        return pg.manyof(min(2, len(cands)), cands)
+      if kind == 'floatv':
+        return pg.floatv(0.0, 1.0)
+      raise core.InvalidCase(d)
+    if '$dna' in d:
+      def conv(x):
+        if isinstance(x, list):
+          return [conv(y) for y in x]
+        if isinstance(x, dict) and '$t' in x:
+          return tuple(conv(y) for y in x['$t'])
+        if isinstance(x, (int, float)) and not isinstance(x, bool):
+          return x
+        raise core.InvalidCase(d)
+      try:
+        return pg.DNA(conv(d['$dna']))
+      except (ValueError, TypeError) as e:
+        raise core.InvalidCase(d) from e
     if '$t' in d:
       if not isinstance(d['$t'], list):
         raise core.InvalidCase(d)
@@ -46,6 +84,19 @@ def build(d, symbolic=False):
       return classes.Opaque(d['$q'])
     raise core.InvalidCase(d)
   return d
+
+
+def _has_partial(d):
+  """Does the descriptor contain a partial object (a Req without its required field)?"""
+  if isinstance(d, list):
+    return any(_has_partial(x) for x in d)
+  if isinstance(d, dict):
+    if d.get('$o') == 'Req' and 'r' not in d.get('a', {}):
+      return True
+    if '$ref' in d:
+      return False
+    return any(_has_partial(x) for x in d.values())
+  return False
 
 
 def plain(v):
@@ -83,11 +134,23 @@ def typed_desc(child):
 
 
 def vdesc(max_leaves=10, keys=None, objects=True, tuples=False, opaque=False,
-          scalars=None, typed=False):
+          scalars=None, typed=False, extras=False):
   keys = keys if keys is not None else KEYS
   leaves = [scalars if scalars is not None else SCALARS]
   if opaque:
     leaves.append(st.builds(lambda v: {'$q': v}, st.integers(0, 3)))
+  if extras:
+    small = st.one_of(st.integers(0, 3), st.lists(st.integers(0, 2), max_size=2),
+                      st.just({'$d': [['k', 1]]}), st.just({'$o': 'P', 'a': {'x': [1]}}))
+    leaves.append(st.one_of(
+        st.builds(lambda v, p: {'$ref': v, 'plain': p},
+                  st.one_of(st.just([1, 2]), st.just({'$d': [['k', [1]]]}), st.just({'$o': 'P', 'a': {'x': 1}})),
+                  st.booleans()),
+        st.builds(lambda k, c: {'$hyper': k, 'c': c}, st.sampled_from(['oneof', 'manyof', 'floatv']),
+                  st.lists(small, min_size=2, max_size=3)),
+        st.sampled_from([{'$dna': 1}, {'$dna': [0, 1]}, {'$dna': [{'$t': [0, [1, 0.5]]}, 2]}]),
+        st.just({'$o': 'Req', 'a': {}}), st.just({'$o': 'Req', 'a': {'r': 1}}),
+    ))
   leaf = st.one_of(*leaves)
 
   def ext(c):
